@@ -136,7 +136,8 @@ func (E *Engine) skipInInit(fn *ssa.Function) bool {
 		return false
 	}
 	switch path {
-	case "errors", "bytes", "strconv", "math", "math/bits", "hash/crc32", "encoding/binary", "sort", "strings", "unicode/utf8":
+	case "errors", "bytes", "strconv", "math", "math/bits", "hash/crc32", "encoding/binary", "sort", "strings", "unicode/utf8",
+		"context": // context.init#1 closes closedchan: without it a Done() first called after cancel() never fires
 		return false
 	}
 	if fn.Name() == "init" {
